@@ -47,3 +47,16 @@ package remoting
 // an undecodable or unhandled frame does not stop the reader: whenever a complete frame was taken from the
 // connection and the call is not fatal, the reader is armed again
 //@   ensures  !fatal && gcount(consumed, c.conn) >= old(gcount(consumed, c.conn)) + 5 ==> exists t mathint :: gcount(rearmed, t) == old(gcount(rearmed, t)) + 1
+
+// C10: the connection's Write / Close / Closed are called from any goroutine (senders, the reader, the server):
+// `closed` only under writeCloseLock; a closed connection is not written to
+//@ guarded (*tcpConnectionActor).closed by writeCloseLock
+//@ func (*tcpConnectionActor).Write
+//@   requires c.conn != nil && !held(c.writeCloseLock)
+//@ func (*tcpConnectionActor).Closed
+//@   requires !held(c.writeCloseLock)
+//@   ensures result == c.closed
+//@ func (*tcpConnectionActor).Close
+//@   requires c.conn != nil && !held(c.writeCloseLock)
+//@   modifies c.closed
+//@   ensures c.closed
